@@ -370,7 +370,13 @@ class Design:
       elif st == 'override' and e[0] == 'm':      # ff only: second assignment wins when c
         lines += [f'      if {self.py_expr(comp, e[1])}:', f'        {tgt} {op} {self.py_expr(comp, e[2])}']
       else:
-        lines.append(f'      {tgt} {op} {self.py_expr(comp, e)}')
+        # now and then the same statement inside a (one-trip) for loop or in the else clause of one: Python runs it exactly
+        # once either way; what pymtl3 reads off the AST (reads, writes, calls) must not depend on where a statement sits
+        k = (self.uid * 7919 + b['id'] * 31 + i) % 14
+        stmt = f'{tgt} {op} {self.py_expr(comp, e)}'
+        if k == 0: lines += [f'      for _k{i} in range(1):', '        pass', '      else:', f'        {stmt}']
+        elif k == 1: lines += [f'      for _k{i} in range(1):', f'        {stmt}']
+        else: lines.append(f'      {stmt}')
     return lines
 
   def source(self):
